@@ -24,7 +24,15 @@ ASSUMPTIONS = [
     "reference result = reference pre-order restricted as in C06",
     "CountError message is only required to contain the match count and the violated bound as decimal numbers before the result repr",
 ]
-VALUES = [1, "1", 2, "b", None]
+VALUES = [1, "1", 2, "b", None, {"list": [1]}, {"tuple": [1]}, {"list": []}]
+ATTR_NAMES = ["name", "kind", "parent.name", "root.kind", "a.b"]
+
+
+def val(spec):
+    """Attribute / search values are JSON in the case description; lists and tuples are tagged."""
+    if isinstance(spec, dict):
+        return list(spec["list"]) if "list" in spec else tuple(spec["tuple"])
+    return spec
 NODE_CLASSES = {"AnyNode": AnyNode}
 
 
@@ -44,10 +52,10 @@ def build(case):
     tree = []
     for idx, parent in enumerate(parents):
         attrs = {}
-        for key in ("name", "kind"):
-            val = case["attrs"][idx].get(key, MISSING)
-            if val != MISSING:
-                attrs[key] = val
+        for key in ATTR_NAMES:
+            spec = case["attrs"][idx].get(key, MISSING)
+            if spec != MISSING:
+                attrs[key] = val(spec)
         node = NODE_CLASSES[case.get("cls", "AnyNode")](**attrs)
         node.idx = idx
         if parent is not None:
@@ -155,7 +163,7 @@ def _once(case, acc, tree, labels):
             raise Violation("find-variants", "find variants disagree")
 
     # by attribute
-    name, value = case["by"]["name"], case["by"]["value"]
+    name, value = case["by"]["name"], val(case["by"]["value"])
     region = refs.restricted(refs.preorder(start), refs.admitted_ids(start, set(), maxlevel), set())
     lacking = 0
     exp_attr = []
@@ -216,7 +224,7 @@ ATTR_VALUE = st.sampled_from(VALUES + [MISSING, MISSING])
 def random_cases(draw, max_nodes=20):
     shape = draw(strategies.tree_shapes(max_nodes=max_nodes, min_nodes=1))
     size = shapes.shape_size(forest.to_tuple(shape))
-    attrs = [{"name": draw(ATTR_VALUE), "kind": draw(ATTR_VALUE)} for _ in range(size)]
+    attrs = [{"name": draw(ATTR_VALUE), "kind": draw(ATTR_VALUE), "parent.name": draw(st.one_of(st.just(MISSING), st.just(MISSING), ATTR_VALUE)), "a.b": draw(st.one_of(st.just(MISSING), ATTR_VALUE))} for _ in range(size)]
     return {
         "shape": shape,
         "attrs": attrs,
@@ -224,9 +232,9 @@ def random_cases(draw, max_nodes=20):
         "stop": draw(strategies.subsets_of(size, max_size=2)),
         "hide": draw(strategies.subsets_of(size, max_size=size)),
         "maxlevel": draw(st.one_of(st.none(), st.none(), st.integers(0, 5))),
-        "by": {"name": draw(st.sampled_from(["name", "kind"])), "value": draw(st.sampled_from(VALUES))},
+        "by": {"name": draw(st.sampled_from(ATTR_NAMES)), "value": draw(st.sampled_from(VALUES))},
         "cls": draw(st.sampled_from(["AnyNode", "AnyNode", "LenAnyNode", "EqAnyNode"])),
-        "mutations": draw(st.lists(st.one_of(strategies.tree_mutation_op(), st.tuples(st.just("rename"), st.integers(0, 30), st.sampled_from(VALUES), st.sampled_from(["name", "kind"])).map(list)), max_size=3)),
+        "mutations": draw(st.lists(st.one_of(strategies.tree_mutation_op(), st.tuples(st.just("rename"), st.integers(0, 30), st.sampled_from([1, "1", 2, "b", None]), st.sampled_from(["name", "kind"])).map(list)), max_size=3)),
     }
 
 
@@ -250,7 +258,7 @@ def _enum_cases(max_nodes, index, count):
                             "stop": [size - 1] if k % 3 == 0 else [],
                             "hide": [0] if k % 5 == 0 else [],
                             "maxlevel": maxlevel,
-                            "by": {"name": "name" if k % 2 else "kind", "value": value},
+                            "by": {"name": ("name", "kind", "parent.name", "a.b")[k % 4], "value": value},
                         }
 
 
